@@ -120,7 +120,7 @@ func expectedContent(name string, t uint16, v int) string {
 
 // ---- events ----
 
-var eventNames = []string{"resolve(n1)", "resolve(n2)", "advance(1s)", "advance(2s)", "advance(5s)", "advance(300s)", "zone-next-version", "toggle-servfail", "toggle-http400"}
+var eventNames = []string{"resolve(n1)", "resolve(n2)", "advance(1s)", "advance(2s)", "advance(5s)", "advance(300s)", "zone-next-version", "toggle-servfail", "toggle-http400", "toggle-rcode9-notauth"}
 
 type cacheEntry struct {
 	version int
@@ -136,7 +136,7 @@ type histResult struct {
 
 // runHistory replays one history on a fresh Resolver, stepping the model alongside.
 func runHistory(hist []int, srv *dohmem.Server, clock *time.Time) (out histResult) {
-	version, servfail, http400 := 0, false, false
+	version, servfail, http400, notauth := 0, false, false, false
 	srv.Reset()
 	srv.Zone = func(name string, t uint16) dohmem.Answer {
 		if http400 {
@@ -144,6 +144,9 @@ func runHistory(hist []int, srv *dohmem.Server, clock *time.Time) (out histResul
 		}
 		if servfail {
 			return dohmem.Answer{RCode: 2}
+		}
+		if notauth {
+			return dohmem.Answer{RCode: 9} // a failure code outside the table of named errors
 		}
 		return buildAnswer(name, t, version)
 	}
@@ -170,6 +173,8 @@ func runHistory(hist []int, srv *dohmem.Server, clock *time.Time) (out histResul
 			servfail = !servfail
 		case 8:
 			http400 = !http400
+		case 9:
+			notauth = !notauth
 		case 0, 1:
 			name := []string{"n1.example", "n2.example"}[e]
 			before := len(srv.Queries())
@@ -181,7 +186,7 @@ func runHistory(hist []int, srv *dohmem.Server, clock *time.Time) (out histResul
 			for _, q := range qs {
 				asked[keyOf(q.Name, q.Type)]++
 			}
-			failing := servfail || http400
+			failing := servfail || http400 || notauth
 			// step the model in the order Resolve consults the keys
 			aborted := false
 			for _, t := range []uint16{65, 1, 28} {
@@ -240,7 +245,7 @@ func runHistory(hist []int, srv *dohmem.Server, clock *time.Time) (out histResul
 
 // HistWorker runs shard i of n of all histories of the given depth.
 func HistWorker(tier string, shard, n int) {
-	depth := 7
+	depth := 6
 	if tier == "thorough" {
 		depth = 8
 	}
